@@ -188,7 +188,7 @@ def shard(spec):
 
 
 def plan(ctx, reader):
-    mods = list(modgen.modules(ctx.tier))
+    mods = list(modgen.modules(ctx.tier, nonfinite=(reader == "OMNI")))
     core = [m for m in mods if m[0] in ("top", "seq2", "wrap", "tree", "key")]
     specs = []
     default = [(e, {}) for e in impl.ENCODERS]
